@@ -175,14 +175,32 @@ def run_history(ctx, seed: int, length: int, script: Optional[List[str]] = None,
                         if path.endswith(P.HINT):
                             raise OSError("injected pointer-write failure")
                         return real_write(path, content)
+                    # WHICH operation's commit fails: an append, a file delete, an expiry or a snapshot deletion -- the
+                    # failed operation must leave every retained snapshot (the one it tried to remove included) as it was
+                    which = rng.choice(["append", "delete_files", "expire", "delete_snapshot", "delete_snapshot_cur"])
+                    snaps_now = list(state["snapshots"])
                     t.storage.write_file = failing
                     try:
-                        t.append_records([{"x": -7}])
-                        viol.append("append with a failing pointer write reported success")
+                        if which == "append" or not snaps_now:
+                            t.append_records([{"x": -7}])
+                        elif which == "delete_files" and cur in state["snapshots"] and state["snapshots"][cur]["files"]:
+                            with t.new_transaction() as tx:
+                                tx.delete_files([state["snapshots"][cur]["files"][0]])
+                                tx.commit()
+                        elif which == "expire":
+                            with t.new_transaction() as tx:
+                                tx.expire_snapshots(max(sn["ts"] for sn in state["snapshots"].values()) + 1)
+                                tx.commit()
+                        elif which == "delete_snapshot_cur" and cur in state["snapshots"]:
+                            t.snapshot_manager.delete_snapshot(cur)
+                        else:
+                            t.snapshot_manager.delete_snapshot(snaps_now[0])
+                        viol.append(f"{which} with a failing pointer write reported success")
                     except OSError:
                         pass
                     finally:
                         t.storage.write_file = real_write
+                    op = f"failed_commit:{which}"
                     stats["failed_commits"] += 1
             except Exception as e:      # noqa: BLE001
                 viol.append(f"step {step} ({op}) raised {type(e).__name__}: {e}"[:300])
